@@ -108,18 +108,45 @@ Proof.
   - intro Ha. destruct (I Ha) as [I1 I2]. split; [exact I1|]. intros t' Ht'. rewrite (proj2 (proj2 (Hsame t'))). apply I2, Ht'.
 Qed.
 
-Lemma scan_inv nthr progs s : INVM nthr progs s -> INVM nthr progs (scan s).
+Lemma inv_set_defect nthr progs s : INVM nthr progs s -> m_atomic s = false -> INVM nthr progs (with_nodes s (m_nodes s) true).
 Proof.
-  intros H. unfold scan.
-  assert (forall l s0, INVM nthr progs s0 ->
-            INVM nthr progs (fold_left (fun s1 n => if fst n <=? m_clock s1
-                         then upd_thr s1 (snd n) (t_with_pending (get_thr s1 (snd n)) true) else s1) l s0)) as Hgen.
-  { induction l as [|n l IH]; intros s0 H0; [exact H0|]. cbn [fold_left]. apply IH.
-    destruct (fst n <=? m_clock s0); [|exact H0]. apply inv_pending, H0. }
-  apply Hgen, H.
+  intros [A B C D E F G H I J K L] Ha. constructor; try assumption.
+  - left. reflexivity.
+  - change (m_atomic (with_nodes s (m_nodes s) true)) with (m_atomic s). rewrite Ha. discriminate.
 Qed.
 
-(** [rel s t] only looks at thread [t], at its current coroutine and at the nodes of [t] *)
+Definition scan_fold (s : mst) : mst :=
+  fold_left (fun s1 n => if fst n <=? m_clock s1
+                         then upd_thr s1 (snd n) (t_with_pending (get_thr s1 (snd n)) true) else s1) (m_nodes s) s.
+
+Lemma scan_eq s : scan s = if in_flight s then with_nodes (scan_fold s) (m_nodes (scan_fold s)) true else scan_fold s.
+Proof. reflexivity. Qed.
+
+Lemma scan_fold_atomic s : m_atomic (scan_fold s) = m_atomic s.
+Proof.
+  unfold scan_fold.
+  assert (forall l s0, m_atomic (fold_left (fun s1 n => if fst n <=? m_clock s1
+                         then upd_thr s1 (snd n) (t_with_pending (get_thr s1 (snd n)) true) else s1) l s0) = m_atomic s0) as Hg.
+  { induction l as [|n l IH]; intro s0; [reflexivity|]. cbn [fold_left]. rewrite IH. destruct (fst n <=? m_clock s0); reflexivity. }
+  apply Hg.
+Qed.
+
+Lemma scan_inv nthr progs s : INVM nthr progs s -> INVM nthr progs (scan s).
+Proof.
+  intros H.
+  assert (INVM nthr progs (scan_fold s)) as Hf.
+  { unfold scan_fold.
+    assert (forall l s0, INVM nthr progs s0 ->
+              INVM nthr progs (fold_left (fun s1 n => if fst n <=? m_clock s1
+                           then upd_thr s1 (snd n) (t_with_pending (get_thr s1 (snd n)) true) else s1) l s0)) as Hgen.
+    { induction l as [|n l IH]; intros s0 H0; [exact H0|]. cbn [fold_left]. apply IH.
+      destruct (fst n <=? m_clock s0); [|exact H0]. apply inv_pending, H0. }
+    apply Hgen, H. }
+  rewrite scan_eq. destruct (in_flight s) eqn:E; [|exact Hf].
+  apply inv_set_defect; [exact Hf|]. rewrite scan_fold_atomic. unfold in_flight in E.
+  destruct (m_atomic s); [discriminate | reflexivity].
+Qed.
+
 Lemma running_cur_some s t c : running_cur s t = Some c -> t_cur (get_thr s t) = Some c.
 Proof.
   unfold running_cur. destruct (t_cur (get_thr s t)) as [c'|]; [|discriminate].
